@@ -2,20 +2,24 @@
 
 One centre manifold per shard (system x L1|L2 x degree).  Generated problem: energy E := H_cm(generated CM point)
 (own evaluation, so that the level set is non-empty), section coordinate, seeding strategy, n_seeds, n_iter,
-integrator (fixed 4/6/8 | symplectic 2/4/6), dt, and a list of partitions (n_workers, numba threads, prange chunk size).
-Every map is computed with a FRESH CenterManifoldMap object (the service cache key of compute() drops the option
-*values*, see notes) and the harness proves that the engine really ran by recording the seeds it lifted.
+integrator (fixed 4/6/8 | symplectic 2/4/6), dt (10^[-3,-1.3], bounded below by a work budget), and a list of
+partitions (n_workers 1..16, numba threads 1..16, prange chunk size).
+Every map is computed with a FRESH CenterManifoldMap object (the service cache key of compute() keeps only the option
+*names*, so distinct options on one object would return the first result) and the harness proves that the engine
+really ran by recording the seeds it lifted (no seed recorded => HarnessError).
 
 Oracles (own polynomial evaluator on the coefficient data of cm.hamiltonian(N), SciPy DOP853 — vf.oracle.c14_ref):
  (1) section coordinate of every returned state (and seed) == 0.0 exactly; `points` are the labelled plane projection of
      `states`, labels are the documented plane coordinates;
  (2) |H_cm(state) - E| <= n_iter * max_point[ |H_f| D + |H_ff| D^2/2 + |grad H| (herm + integ) ] + seed tolerance, with
-     D = 1.25 max|f''| dt^2/8 the derived offset of the linear-fraction crossing, herm the cubic-Hermite remainder and
-     integ the one-step-method allowance (formulas in ASSUMPTIONS); evaluated at dt and at dt/2 (the bound shrinks 4x in
-     its leading term: envelope form of the halving law; the raw ratio is reported, not asserted);
+     D = 1.25 max|f''| dt^2/8 the derived section offset of the linear-fraction crossing (f'' ~ -W^2 f vanishes at the
+     crossing, so D = O(dt^3) in practice), herm the cubic-Hermite remainder and integ the one-step-method allowance
+     (formulas in ASSUMPTIONS); evaluated at dt and at dt/2 (envelope form of the halving law: every term of the bound
+     shrinks >= 4x; the raw max-error ratio is reported in the evidence, not asserted);
  (3) genuine return: the reference integrates the reduced Hamilton equations from every seed and every returned point
-     to the following crossings of the section; the returned points must admit an INJECTIVE assignment of predecessors
-     (maximum bipartite matching on the tolerance graph) — set-wise, because failed seeds are dropped silently;
+     to the following crossings of the section (both directions, two per direction); the returned points must admit
+     an INJECTIVE assignment of predecessors (maximum bipartite matching on the tolerance graph) under ONE direction
+     rule — set-wise, because failed seeds are dropped silently;
  (4) partition independence: the lexicographically sorted states of every (n_workers, threads, chunk) run are
      bit-for-bit those of the (1 worker, 1 thread) run (each seed is iterated sequentially by deterministic code).
 """
@@ -530,7 +534,7 @@ def eval_case(case, ctx):
             sh = check_map(ctx, case, m, E, dt / 2.0, half, "dt/2, 1 worker, 1 thread")
             if sh is not None and sh["emax"] > 0 and sm["emax"] > 0:
                 ratio = sm["emax"] / sh["emax"]
-                hist = ctx.extra.setdefault("energy_error_ratio_dt_over_half_dt", {"<2": 0, "2-4": 0, "4-16": 0, ">=16": 0})
+                hist = ctx.extra.setdefault("max_energy_error_ratio_dt_over_half_dt:" + case["method"], {"<2": 0, "2-4": 0, "4-16": 0, ">=16": 0})
                 hist["<2" if ratio < 2 else "2-4" if ratio < 4 else "4-16" if ratio < 16 else ">=16"] += 1
     # ---- same-object recompute (observation only; the cache key drops option values)
     if case.get("probe_cache") and sm is not None and sm["M"] > 0:
@@ -694,8 +698,8 @@ def run(ctx):
     man = _shard_man(ctx)
     shard_replays(ctx, replay)
     # work = bound on n_iter * stages / dt of the base map (about 1.7 ms of single-thread kernel time per unit with 20 seeds)
-    work = ctx.scale(600.0, 2400.0)
-    n = ctx.scale(3, 20)
+    work = ctx.scale(600.0, 2000.0)
+    n = ctx.scale(3, 14)
     explore(ctx, "maps", map_case(man, work, ctx.scale(2, 3)), eval_case, n, shrink_calls=ctx.scale(1, 6))
     ctx.extra.setdefault("threading_layer", {})[_layer()] = 1
 
